@@ -1,6 +1,6 @@
 (* C03 -- NNX split/merge round-trips any object graph, preserving sharing and cycles. *)
-From Coq Require Import Permutation.
-From Flaxm Require Import Lib.Harness Model.NnxFilters Model.Graph Model.UpdateCtx Proofs.Graph Proofs.UpdateCtx Proofs.GraphIso.
+From Coq Require Import Permutation Lia.
+From Flaxm Require Import Lib.Harness Model.NnxFilters Model.Graph Model.UpdateCtx Proofs.Graph Proofs.UpdateCtx Proofs.GraphIso Proofs.GraphTotal.
 
 (* merge(split(g)) is isomorphic to g, for EVERY heap and root (cycles, self references, shared Variables, nested
    containers): ri numbers the reachable reference objects without repetition, the rebuilt heap has exactly one cell
@@ -38,6 +38,19 @@ Theorem C03_flatten_unflatten_id : forall h v g ls, flatten h v = Some (g, ls) -
   exists h' v', unflatten g (map snd ls) = Some (h', v') /\ forall g' ls', flatten h' v' = Some (g', ls') -> g' = g /\ ls' = ls.
 Proof. exact flatten_unflatten_id. Qed.
 Print Assumptions C03_flatten_unflatten_id.
+
+(* flatten is total on closed heaps: with the fuel the model gives itself the traversal never runs out and never meets a
+   dangling reference, for every heap in which every reference points inside the heap -- cycles, self references and
+   shared objects included (an object is entered only while it is not yet in ref_index).  The round-trip theorems above
+   therefore apply to every closed graph, not only to those on which flatten happens to succeed. *)
+Theorem C03_flatten_total : forall h v, heap_closed h -> closed_val (inb h) v -> exists g ls, flatten h v = Some (g, ls).
+Proof. exact flatten_total. Qed.
+Print Assumptions C03_flatten_total.
+
+Example C03_flatten_total_example :
+  let h := [ONode 1 [(1%N, VRef 1); (2%N, VRef 0)]; ONode 2 [(1%N, VRef 0); (3%N, VTree 1 [(0%N, VRef 2); (1%N, VRef 1)])]; OVar 11 7 0] in
+  heap_closed h /\ closed_val (inb h) (VRef 0) /\ flatten h (VRef 0) <> None.
+Proof. split; [|split]; [repeat constructor; vm_compute; lia| vm_compute; lia | vm_compute; discriminate]. Qed.
 
 (* splitting with filters partitions the leaves: nothing lost or duplicated, each leaf in the state of its first
    matching filter and in no other; a leaf no filter matches makes split raise *)
